@@ -60,6 +60,10 @@ func (r *Run) foreignCountersign(t *tape.Tape, parent *ForeignParent, depth int,
 	frag := refcbor.Map()
 	var nodes []*CsigNode
 	n := t.Pick([]int{3, 6, 3, 2, 1}, "fcsig.n")
+	if n > 0 && t.Bool(1, 25, "fcsig.long") {
+		// a long list (a document countersigned by a whole panel of notaries)
+		n = 5 + t.Choose(6, "fcsig.long.n")
+	}
 	if n > 0 {
 		label := foreignCsigLabel(t, parent.Kind, false)
 		var objs []*refcbor.Item
